@@ -246,6 +246,10 @@ pub(crate) fn is_valid_topic(topic: &str) -> bool {
         return false;
     }
 
+    if topic.contains('\0') {
+        return false;
+    }
+
     true
 }
 
@@ -264,6 +268,11 @@ fn compute_topic_filter_properties(topic: &str) -> TopicFilterProperties {
     };
 
     if topic.is_empty() || topic.len() > MAXIMUM_STRING_PROPERTY_LENGTH {
+        properties.is_valid = false;
+        return properties;
+    }
+
+    if topic.contains('\0') {
         properties.is_valid = false;
         return properties;
     }
